@@ -7,6 +7,8 @@ import (
 	"go/constant"
 	"go/types"
 	"strings"
+
+	"golang.org/x/tools/go/ssa"
 )
 
 // AddrV is a struct value located at an address (not loaded).
@@ -32,6 +34,7 @@ type SpecCtx struct {
 	wit   map[string]Expr   // existential witnesses (only used at polarity +1)
 	witEnv map[string]envEntry // names visible to witness expressions
 	witCur *State
+	lentry *State // state at the entry of the loop whose invariant is being evaluated (entry(e))
 }
 
 func (c *SpecCtx) flip() *SpecCtx {
@@ -712,6 +715,42 @@ func (c *SpecCtx) call(n *ECall) (Val, types.Type) {
 			return B(sx("select", sc.T, k.(Sc).T)), tBool
 		}
 		c.fail("has() on %s", t)
+	case "visited": // visited(k [, n]): key k was already produced by the n-th (default 0) map-range loop of this function
+		k, _ := arg(0)
+		want := 0
+		if len(n.Args) > 1 {
+			if lit, ok := n.Args[1].(*EInt); ok {
+				fmt.Sscanf(lit.V, "%d", &want)
+			}
+		}
+		fn := x.fn
+		if c.fr != nil && c.fr.fn != nil {
+			fn = c.fr.fn
+		}
+		cnt := 0
+		for _, b := range fn.Blocks {
+			for _, ins := range b.Instrs {
+				r, ok := ins.(*ssa.Range)
+				if !ok {
+					continue
+				}
+				mt, ok := r.X.Type().Underlying().(*types.Map)
+				if !ok {
+					continue
+				}
+				if cnt == want {
+					ks, _ := mapSorts(mt)
+					if ks == "" {
+						ks = "Int"
+					}
+					sort := fmt.Sprintf("(Array %s Bool)", ks)
+					h := x.heap(c.cur, "IT$"+sanitize(funcKey(fn))+"$"+r.Name(), sort)
+					return B(sx("select", h, k.(Sc).T)), tBool
+				}
+				cnt++
+			}
+		}
+		c.fail("visited(): function has no map-range loop #%d", want)
 	case "arrayof": // identity of the backing array of a slice
 		v, _ := arg(0)
 		return I(v.(SliceV).Arr), tInt
@@ -765,6 +804,19 @@ func (c *SpecCtx) call(n *ECall) (Val, types.Type) {
 	case "wrapu64":
 		a, _ := arg(0)
 		return I(wrapTerm(types.Typ[types.Uint64], a.(Sc).T, false)), types.Typ[types.Uint64]
+	case "callstotal": // callstotal("funckey"): number of calls of a function under contract, over all receivers
+		ks, ok := n.Args[0].(*EStr)
+		if !ok {
+			c.fail("callstotal(\"funckey\")")
+		}
+		key, err := x.eng.resolveKey(normKey(c.pkg, ks.V))
+		if err != nil {
+			c.fail("callstotal: %v", err)
+		}
+		if x.eng.contracts[key] == nil {
+			c.fail("callstotal: %s has no contract", key)
+		}
+		return I(x.heap(c.cur, callCounter(key)+"$argtotal", "Int")), tInt
 	case "calls": // calls("funckey", receiver): ghost counter of calls to a function under contract
 		ks, ok := n.Args[0].(*EStr)
 		if !ok {
@@ -804,6 +856,24 @@ func (c *SpecCtx) call(n *ECall) (Val, types.Type) {
 			return B(x.heap(c.cur, "G$invoked$"+id.Name, "Bool")), tBool
 		}
 		return IfaceV{x.heap(c.cur, "G$cbresult$"+id.Name+".tag", "Int"), x.heap(c.cur, "G$cbresult$"+id.Name+".ref", "Int")}, types.Universe.Lookup("error").Type()
+	case "pageat": // pageat(b): the page header overlaid on the first bytes of a byte slice (A-unsafe: (*Page)(unsafe.Pointer(&b[0])))
+		v, _ := arg(0)
+		sv, ok := v.(SliceV)
+		if !ok {
+			c.fail("pageat(byteslice)")
+		}
+		x.declEptr()
+		pt, err := x.eng.resolveType(c.pkg, "*common.Page")
+		if err != nil {
+			c.fail("pageat: %v", err)
+		}
+		return I(sx("eptr", sv.Arr, sx("+", sv.Off, "0"))), pt
+	case "isobject": // isobject(p): p is the reference of a separately allocated object (not an interior pointer)
+		v, _ := arg(0)
+		return B(sx(">", v.(Sc).T, "0")), tBool
+	case "interior": // interior(p): p points into another object (array element, embedded struct, mapped memory)
+		v, _ := arg(0)
+		return B(sx("<", v.(Sc).T, "0")), tBool
 	case "sent": // sent(ch): number of values sent on a channel so far (ghost log)
 		v, _ := arg(0)
 		h := x.heap(c.cur, "G$sent", "(Array Int Int)")
@@ -832,12 +902,160 @@ func (c *SpecCtx) call(n *ECall) (Val, types.Type) {
 			eqs = append(eqs, sx("=", x.heap(c.cur, l.heap, srt), x.heap(c.old, l.heap, srt)))
 		}
 		return B(and(eqs...)), tBool
+	case "entry": // entry(e): e evaluated in the state in which the enclosing loop was entered (loop invariants only)
+		if c.lentry == nil {
+			c.fail("entry(e) is only available in loop invariants")
+		}
+		ec := *c
+		ec.cur = c.lentry
+		return ec.eval(n.Args[0])
+	case "loopsame": // loopsame(s): slice header and the whole backing array of s are as they were at loop entry
+		if c.lentry == nil {
+			c.fail("loopsame(s) is only available in loop invariants")
+		}
+		v, t := arg(0)
+		sv, ok := v.(SliceV)
+		st, ok2 := t.Underlying().(*types.Slice)
+		ec := *c
+		ec.cur = c.lentry
+		ev, _ := ec.eval(n.Args[0])
+		esv, ok3 := ev.(SliceV)
+		if !ok || !ok2 || !ok3 {
+			c.fail("loopsame(slice)")
+		}
+		eqs := []string{sx("=", sv.Arr, esv.Arr), sx("=", sv.Off, esv.Off), sx("=", sv.Len, esv.Len)}
+		for _, cp := range x.comps(st.Elem()) {
+			name := "E$" + typeKey(st.Elem()) + cp.suffix
+			srt := arr2Sort(cp.sort)
+			eqs = append(eqs, sx("=", sx("select", x.heap(c.cur, name, srt), sv.Arr), sx("select", x.heap(c.lentry, name, srt), esv.Arr)))
+		}
+		return B(and(eqs...)), tBool
+	case "samerow": // samerow(s): the whole backing array of slice s holds the same elements as in the old state
+		if c.old == nil {
+			c.fail("samerow(s) needs a two-state context")
+		}
+		v, t := arg(0)
+		sv, ok := v.(SliceV)
+		st, ok2 := t.Underlying().(*types.Slice)
+		if !ok || !ok2 {
+			c.fail("samerow(slice)")
+		}
+		oc := *c
+		oc.cur = c.old
+		ov, _ := oc.eval(n.Args[0])
+		osv, ok := ov.(SliceV)
+		if !ok {
+			c.fail("samerow(slice)")
+		}
+		var eqs []string
+		for _, cp := range x.comps(st.Elem()) {
+			name := "E$" + typeKey(st.Elem()) + cp.suffix
+			srt := arr2Sort(cp.sort)
+			eqs = append(eqs, sx("=", sx("select", x.heap(c.cur, name, srt), sv.Arr), sx("select", x.heap(c.old, name, srt), osv.Arr)))
+		}
+		return B(and(eqs...)), tBool
+	case "sameelems": // sameelems("T"): the elements of every []T array that existed in the old state are unchanged
+		str, ok := n.Args[0].(*EStr)
+		if !ok || c.old == nil {
+			c.fail("sameelems(\"T\") needs a two-state context")
+		}
+		t, err := x.eng.resolveType(c.pkg, str.V)
+		if err != nil {
+			c.fail("sameelems: %v", err)
+		}
+		var eqs []string
+		for _, cp := range x.comps(t) {
+			name := "E$" + typeKey(t) + cp.suffix
+			srt := arr2Sort(cp.sort)
+			hc, ho := x.heap(c.cur, name, srt), x.heap(c.old, name, srt)
+			if hc == ho {
+				continue
+			}
+			*c.qn++
+			a := fmt.Sprintf("se%d", *c.qn)
+			eqs = append(eqs, fmt.Sprintf("(forall ((%s Int)) (! (=> (<= %s %s) (= (select %s %s) (select %s %s))) :pattern ((select %s %s))))", a, a, c.old.alc, hc, a, ho, a, hc, a))
+		}
+		return B(and(eqs...)), tBool
+	case "lastret", "lastretnil": // lastret("funckey", i): result i of the most recent call of a function under contract
+		ks, ok := n.Args[0].(*EStr)
+		il, ok2 := n.Args[1].(*EInt)
+		if !ok || !ok2 {
+			c.fail("lastret(\"funckey\", index)")
+		}
+		key, err := x.eng.resolveKey(normKey(c.pkg, ks.V))
+		if err != nil {
+			c.fail("lastret: %v", err)
+		}
+		rn := fmt.Sprintf("%s$argret%s", callCounter(key), il.V)
+		if n.Fun == "lastretnil" {
+			return B(x.heap(c.cur, rn+".nil", "Bool")), tBool
+		}
+		sort := "Int"
+		var rt types.Type = tInt
+		if fn := x.eng.byKey[key]; fn != nil {
+			idx := 0
+			fmt.Sscanf(il.V, "%d", &idx)
+			if idx < fn.Signature.Results().Len() {
+				pt := fn.Signature.Results().At(idx).Type()
+				switch kindOf(pt) {
+				case KBool:
+					sort, rt = "Bool", tBool
+				case KStr, KSlice:
+					sort, rt = "Str", types.Typ[types.String]
+				default:
+					rt = pt
+				}
+			}
+		}
+		if sort == "Str" {
+			x.declSort("Str")
+		}
+		return Sc{T: x.heap(c.cur, rn, sort), S: sort}, rt
+	case "lastarg", "lastargnil": // lastarg("funckey", i): argument i (receiver = 0) of the most recent call of a function under contract
+		ks, ok := n.Args[0].(*EStr)
+		il, ok2 := n.Args[1].(*EInt)
+		if !ok || !ok2 {
+			c.fail("lastarg(\"funckey\", index)")
+		}
+		key, err := x.eng.resolveKey(normKey(c.pkg, ks.V))
+		if err != nil {
+			c.fail("lastarg: %v", err)
+		}
+		an := fmt.Sprintf("%s$arg%s", callCounter(key), il.V)
+		if n.Fun == "lastargnil" {
+			return B(x.heap(c.cur, an+".nil", "Bool")), tBool
+		}
+		// sort from the callee's signature
+		sort := "Int"
+		var rt types.Type = tInt
+		if fn := x.eng.byKey[key]; fn != nil {
+			idx := 0
+			fmt.Sscanf(il.V, "%d", &idx)
+			if idx < len(fn.Params) {
+				pt := fn.Params[idx].Type()
+				switch kindOf(pt) {
+				case KBool:
+					sort, rt = "Bool", tBool
+				case KStr:
+					sort, rt = "Str", types.Typ[types.String]
+				case KSlice:
+					sort, rt = "Str", types.Typ[types.String]
+				default:
+					rt = pt
+				}
+			}
+		}
+		if sort == "Str" {
+			x.declSort("Str")
+		}
+		return Sc{T: x.heap(c.cur, an, sort), S: sort}, rt
 	case "pow2":
 		a, _ := arg(0)
 		return I(x.pow2(a.(Sc).T)), tInt
 	case "wrapint":
 		a, _ := arg(0)
-		return I(wrapTerm(types.Typ[types.Int], a.(Sc).T, false)), types.Typ[types.Int]
+		t := a.(Sc).T
+		return I(sx("ite", sx("and", sx("<=", "(- 9223372036854775808)", t), sx("<=", t, "9223372036854775807")), t, wrapTerm(types.Typ[types.Int], t, false))), types.Typ[types.Int]
 	case "allocated": // reference existed in the pre-state
 		a, _ := arg(0)
 		return B(sx("<=", a.(Sc).T, c.old.alc)), tBool
